@@ -161,7 +161,9 @@ func (d *Database) FindEmitterSequenceGap(prefix vaa.VAAID) (resp []uint64, firs
 	if err = d.db.View(func(txn *badger.Txn) error {
 		it := txn.NewIterator(badger.DefaultIteratorOptions)
 		defer it.Close()
-		prefix := prefix.EmitterPrefixBytes()
+		// The trailing separator keeps the scan inside one target chain: without it the prefix
+		// for target chain 2 also matches the keys of target chains 20..29, 200.. and so on.
+		prefix := append(prefix.EmitterPrefixBytes(), '/')
 
 		// Find all sequence numbers (the message IDs are ordered lexicographically,
 		// rather than numerically, so we need to sort them in-memory).
